@@ -10,6 +10,7 @@ export GOFLAGS=-mod=mod GOPROXY=off GOSUMDB=off GOTOOLCHAIN=local
 /verif/bin/govc check -p "$id" -tier thorough
 rc=$?
 if [ $rc -ne 0 ]; then exit $rc; fi
+python3 /verif/tools/bounded.py "$id" thorough || exit 1
 python3 /verif/selftest/run.py -p "$id" -j 3
 if [ $? -ne 0 ]; then echo "SELFTEST-FAILED property=$id: a must-fail mutant was not reported (machinery defect, not a property verdict)"; exit 2; fi
 case "$id" in
